@@ -2,14 +2,16 @@ use super::strings::name;
 use super::util::{ignore_comments, opt_spacelike};
 use super::value::space_list;
 use super::{PResult, Span};
+use crate::Invalid;
 use crate::sass::{CallArgs, FormalArgs, Name};
 use nom::Parser as _;
 use nom::bytes::complete::tag;
 use nom::character::complete::char;
-use nom::combinator::{cut, map, map_res, opt};
+use nom::combinator::{cut, map, opt};
 use nom::error::context;
 use nom::multi::separated_list0;
 use nom::sequence::{delimited, pair, preceded, terminated};
+use nom_language::error::{VerboseError, VerboseErrorKind};
 
 pub fn formal_args(input: Span) -> PResult<FormalArgs> {
     let (input, _) = terminated(char('('), opt_spacelike).parse(input)?;
@@ -51,8 +53,8 @@ pub fn formal_args(input: Span) -> PResult<FormalArgs> {
 pub fn call_args(input: Span) -> PResult<CallArgs> {
     delimited(
         terminated(char('('), opt_spacelike),
-        map_res(
-            |input| {
+        |input| {
+            let (rest, (args, trail)) = (|input| {
                 let (input, args) = separated_list0(
                     terminated(tag(","), opt_spacelike),
                     pair(
@@ -78,9 +80,25 @@ pub fn call_args(input: Span) -> PResult<CallArgs> {
                     (input, None)
                 };
                 Ok((input, (args, trail)))
-            },
-            |(args, trail)| CallArgs::new(args, trail.is_some()),
-        ),
+            })(input)?;
+            // The arguments are parsed, so this is a call.  If they
+            // are invalid, don't try to read it as something else.
+            match CallArgs::new(args, trail.is_some()) {
+                Ok(args) => Ok((rest, args)),
+                Err(err) => {
+                    let msg = match err {
+                        Invalid::DuplicateArgument => "Duplicate argument.",
+                        _ => {
+                            "Positional arguments must come before \
+                             keyword arguments."
+                        }
+                    };
+                    Err(nom::Err::Failure(VerboseError {
+                        errors: vec![(input, VerboseErrorKind::Context(msg))],
+                    }))
+                }
+            }
+        },
         cut(char(')')),
     )
     .parse(input)
